@@ -67,7 +67,7 @@ struct Tok {
 	bool hastime;
 	int H, M, S;
 };
-bool sepch(char c) { return c == ' ' || c == ',' || c == ';' || c == '(' || c == ')' || c == '\t'; }
+bool sepch(char c) { return c == ' ' || c == ',' || c == ';' || c == '(' || c == ')' || c == '\t' || c == '\0'; }
 /* what may stand directly in front of a token / directly behind it without becoming part of a date or time:
  * behind, the characters that could continue one (. : + T) are fine as long as no digit follows */
 bool prech(char c) { return sepch(c) || c == 'x' || c == '=' || c == '[' || c == '"'; }
@@ -86,8 +86,6 @@ bool scan_tokens(const std::string &c, std::vector<Tok> &toks)
 {
 	toks.clear();
 	size_t i = 0, n = c.size();
-	if (c.find('\0') != std::string::npos)	/* the finder stops at a NUL: judged differentially only if digits are around */
-		return std::none_of(c.begin(), c.end(), isdig);
 	while (i < n) {
 		if (!isdig(c[i])) {
 			/* a lone - directly in front of a digit would be read as a sign or a separator */
@@ -254,15 +252,25 @@ std::string gen_line(Rng &r, size_t target_len, int flavour)
 		static const char *pre[] = {"", " ", "x", "(", "=", "[", "\"", "log "};
 		static const char *post[] = {".", ".x", ". x", ":", ":x", ": x", "+", "+x", "T", "Tx", "x", ",", ")", ";", "]", "\"", "!", "", " x"};
 		int nt = (int)r.range(1, 3);
+		if (r.chance(1, 10))
+			nt = (int)r.range(4, 12);	/* many values on one line */
 		for (int i = 0; i < nt; i++) {
 			if (i)
 				s += " ";
-			s += pre[r.below(sizeof(pre) / sizeof(*pre))];
+			/* a NUL byte directly in front of or behind a value is an ordinary byte of the line */
+			bool nulpre = r.chance(1, 12), nulpost = r.chance(1, 8);
+			if (nulpre)
+				s += std::string(r.chance(1, 2) ? "x" : "") + '\0';
+			else
+				s += pre[r.below(sizeof(pre) / sizeof(*pre))];
 			std::string tok = rand_token(r);
 			if (tok.size() == 19 && r.chance(1, 3))
 				tok += r.chance(2, 3) ? "+00:00" : "Z";
 			s += tok;
-			s += post[r.below(sizeof(post) / sizeof(*post))];
+			if (nulpost)
+				s += std::string(1, '\0') + (r.chance(1, 2) ? "y" : "");
+			else
+				s += post[r.below(sizeof(post) / sizeof(*post))];
 		}
 		if (r.chance(1, 2))
 			s += " " + safe_lit(r, (size_t)r.below(6), false);
@@ -746,6 +754,31 @@ struct StreamEngine : Engine {
 				v.detail = mism;
 			}
 			return v;
+		}
+		/* ---- oracle 1, always: the same bytes delivered as fast as the reader asks for them ---- */
+		if (!fault && !p.sched.empty()) {
+			Plan q = p;
+			q.sched.clear();
+			RunResult r0 = run_plan(q, lim);
+			st.add_probes(r0);
+			if (collect)
+				st.named["oracle1_schedule_pairs"]++;
+			if (r0.crashed() || r0.flags) {
+				v.ok = false;
+				v.cls = r0.hang || (r0.flags & F_STEP_BUDGET) ? "stream/hang" : "stream/memory";
+				v.detail = "under the one-read delivery: " + r0.status_str() + " " + r0.note + " " + asan_summary(r0.err);
+				return v;
+			}
+			if (r0.out != r.out || r0.exit_code != r.exit_code) {
+				size_t d = 0;
+				while (d < r0.out.size() && d < r.out.size() && r0.out[d] == r.out[d])
+					d++;
+				v.ok = false;
+				v.cls = "stream/schedule-dependence";
+				v.detail = "output under the generated read schedule differs from the one-read delivery at byte " + std::to_string(d) + ": " +
+					   cquote(r.out.substr(d > 20 ? d - 20 : 0, 60), 60) + " vs " + cquote(r0.out.substr(d > 20 ? d - 20 : 0, 60), 60);
+				return v;
+			}
 		}
 		if (!fault) {
 			bool nz = r.exit_code != 0;
